@@ -1,5 +1,6 @@
 import SignaloModel.Proofs.BridgeSimple
 import SignaloModel.Proofs.ClassifyProofs
+import SignaloModel.Proofs.PeaksFromState
 /-!
 # C09 — Slope and peak classifiers report sign changes of the first difference
 
@@ -8,6 +9,11 @@ The property theorems for C09: `#check` prints each statement, `#print axioms` i
 -/
 open SignaloModel
 
+#check @SignaloModel.Classify.peaksStep_from_state
+#check @SignaloModel.Classify.peaksSlopeRun_getElem
+#check @SignaloModel.Classify.peakOf_min_iff
+#check @SignaloModel.Classify.peakOf_max_iff
+#check @SignaloModel.Registry.peaksSlopeStep_from_state
 #check @Registry.slope_spec
 #check @Registry.peak_spec
 #check @Registry.slopes_registry_correct
@@ -16,6 +22,11 @@ open SignaloModel
 #check @Classify.peaks_correct
 #check @Classify.peaks_value_eq_slope
 
+#print axioms SignaloModel.Classify.peaksStep_from_state
+#print axioms SignaloModel.Classify.peaksSlopeRun_getElem
+#print axioms SignaloModel.Classify.peakOf_min_iff
+#print axioms SignaloModel.Classify.peakOf_max_iff
+#print axioms SignaloModel.Registry.peaksSlopeStep_from_state
 #print axioms Registry.slope_spec
 #print axioms Registry.peak_spec
 #print axioms Registry.slopes_registry_correct
